@@ -409,7 +409,47 @@ def fmt_nonempty(fmt):
     return len(lit) > 0
 
 
+def concrete_cstr(st, ref, limit=4096):
+    """text of a char buffer whose bytes are all concrete in the abstract store, else None"""
+    if isinstance(ref, Str):
+        return ref.text().split('\0')[0]
+    if not isinstance(ref, Ref):
+        return None
+    base = ref.path
+    start = 0
+    if base.endswith(']') and '[' in base:
+        head, _, tail = base.rpartition('[')
+        try:
+            start = int(tail[:-1])
+            base = head
+        except ValueError:
+            return None
+    out = []
+    for i in range(start, start + limit):
+        v = st.mem.get((ref.loc, '%s[%d]' % (base, i)))
+        if not isinstance(v, Int):
+            return None
+        if v.v == 0:
+            return ''.join(out)
+        out.append(chr(v.v & 0xff))
+    return None
+
+
+def h_strcspn(it, st, args, node):
+    a = concrete_cstr(st, args[0])
+    b = concrete_cstr(st, args[1])
+    if a is not None and b is not None:
+        n = 0
+        while n < len(a) and a[n] not in b:
+            n += 1
+        return [(st, Int(n))]
+    return None
+
+
 def h_strlen(it, st, args, node):
+    c = concrete_cstr(st, args[0]) if isinstance(args[0], Ref) else None
+    if c is not None:
+        return [(st, Int(len(c)))]
     a = args[0]
     if isinstance(a, Str):
         return [(st, Int(len(a.text().split('\0')[0])))]
@@ -566,6 +606,8 @@ def build_model(overrides=None):
     m['strcmp'] = _str_cmp('strcmp')
     m['memset'] = h_memset
     m['snprintf'] = h_snprintf
+    _g = m['strcspn']
+    m['strcspn'] = lambda it, st, args, node: (h_strcspn(it, st, args, node) or _g(it, st, args, node))
     m['json_string_value'] = h_json_string_value
     m['json_decrefp'] = h_json_decrefp
     m['json_object_set_new'] = _takes_value('json_object_set_new', 2)
